@@ -1,5 +1,5 @@
 (* Model of doc/generate/mjcf_schema.py (C41): lexer (_TOKEN_RE/_lex), recursive-descent _Parser,
-   _validate, _check_group_cycle, Schema.expanded_attrs/_group_attrs, _validate_attr, parse_string.
+   _validate, _check_group_cycle, Schema.expanded_attrs_rec/_group_attrs, _validate_attr, parse_string_rec.
 
    Definitions only, executable.  Text = list of Unicode code points (N).  Python exceptions other
    than SchemaError are NOT totalised away: indexing the token list past its end yields
@@ -805,7 +805,7 @@ Fixpoint vfor {A} (f : A -> vres) (l : list A) : vres :=
 Definition vcheck (ok : bool) (line : N) : vres := if ok then VOk else VErr line.
 
 (* _check_group_cycle; [left] = frames still available including the one of this call *)
-Fixpoint check_cycle (groups : list group) (left : nat) (name : str) (stack : list str) (line : N) : vres :=
+Fixpoint check_cycle_rec (groups : list group) (left : nat) (name : str) (stack : list str) (line : N) : vres :=
   match left with
   | O => VExn RecursionError
   | S left' =>
@@ -820,7 +820,7 @@ Fixpoint check_cycle (groups : list group) (left : nat) (name : str) (stack : li
            match ms with
            | [] => VOk
            | MUse g' l :: r =>
-             match check_cycle groups left' g' (stack ++ [name]) l with VOk => loop r | e => e end
+             match check_cycle_rec groups left' g' (stack ++ [name]) l with VOk => loop r | e => e end
            | _ :: r => loop r
            end) (g_members g)
       end
@@ -829,7 +829,7 @@ Fixpoint check_cycle (groups : list group) (left : nat) (name : str) (stack : li
 Inductive gres := GOk (l : list attr) | GExn (e : pyexn).
 
 (* Schema._group_attrs *)
-Fixpoint group_attrs (groups : list group) (left : nat) (name : str) : gres :=
+Fixpoint group_attrs_rec (groups : list group) (left : nat) (name : str) : gres :=
   match left with
   | O => GExn RecursionError
   | S left' =>
@@ -841,7 +841,7 @@ Fixpoint group_attrs (groups : list group) (left : nat) (name : str) : gres :=
          | [] => GOk []
          | MAttr a :: r => match loop r with GOk l => GOk (a :: l) | e => e end
          | MUse g' _ :: r =>
-           match group_attrs groups left' g' with
+           match group_attrs_rec groups left' g' with
            | GOk l1 => match loop r with GOk l2 => GOk (l1 ++ l2) | e => e end
            | e => e
            end
@@ -850,8 +850,8 @@ Fixpoint group_attrs (groups : list group) (left : nat) (name : str) : gres :=
     end
   end.
 
-(* Schema.expanded_attrs *)
-Definition expanded_attrs (groups : list group) (left : nat) (members : list member) : gres :=
+(* Schema.expanded_attrs_rec *)
+Definition expanded_attrs_rec (groups : list group) (left : nat) (members : list member) : gres :=
   match left with
   | O => GExn RecursionError
   | S left' =>
@@ -860,7 +860,7 @@ Definition expanded_attrs (groups : list group) (left : nat) (members : list mem
        | [] => GOk []
        | MAttr a :: r => match loop r with GOk l => GOk (a :: l) | e => e end
        | MUse g' _ :: r =>
-         match group_attrs groups left' g' with
+         match group_attrs_rec groups left' g' with
          | GOk l1 => match loop r with GOk l2 => GOk (l1 ++ l2) | e => e end
          | e => e
          end
@@ -1017,7 +1017,7 @@ Definition constraints_check (names : list str) (ms : list member) : vres :=
                    end
                  | _ => VOk end) ms.
 
-Definition element_check (sch : schema) (rl : nat) (e : element) : vres :=
+Definition element_check_rec (sch : schema) (rl : nat) (e : element) : vres :=
   vfor (fun k => match fget (e_facets e) k with
                  | Some v => vcheck (is_fstr v) (e_line e)
                  | None => VOk end) [f_xml; f_alias] >>>
@@ -1027,7 +1027,7 @@ Definition element_check (sch : schema) (rl : nat) (e : element) : vres :=
   | None => VOk
   end >>>
   children_check (s_elements sch) [] (e_members e) >>>
-  match expanded_attrs (s_groups sch) rl (e_members e) with
+  match expanded_attrs_rec (s_groups sch) rl (e_members e) with
   | GExn x => VExn x
   | GOk attrs =>
     match dup_check (e_line e) [] attrs with
@@ -1037,22 +1037,187 @@ Definition element_check (sch : schema) (rl : nat) (e : element) : vres :=
     end
   end.
 
-(* _validate; rl = Python frames available to the callees of _validate *)
-Definition validate (rl : nat) (sch : schema) : vres :=
+(* _check_child_cycles: iterative depth-first search over the child graph with a set of finished elements.
+   Edges: children other than the element itself whose target has no alias facet.  The Python code keeps
+   an explicit stack (no recursion limit involved); the model recurses with fuel = number of elements + 1,
+   which bounds the length of the path (distinct declared elements). *)
+Fixpoint edges_of (els : list element) (ename : str) (ms : list member) : option (list (str * N)) :=
+  match ms with
+  | [] => Some []
+  | MChild n _ _ line :: r =>
+    if str_eqb n ename then edges_of els ename r
+    else
+      match find_element els n with
+      | None => None                      (* schema.elements[c.name]: KeyError *)
+      | Some t =>
+        match edges_of els ename r with
+        | None => None
+        | Some l => Some (if fhas (e_facets t) f_alias then l else (n, line) :: l)
+        end
+      end
+  | _ :: r => edges_of els ename r
+  end.
+
+Inductive cres := COk (done : list str) | CErr (line : N) | CExn (e : pyexn).
+
+(* successors of a node of a graph on names: SSkip = the name is not declared and is silently skipped,
+   SKeyError = looking the name up raises KeyError, SEdges = outgoing edges with the line of each *)
+Inductive sres := SSkip | SKeyError | SEdges (es : list (str * N)).
+
+(* The depth-first search shared by the repaired _check_group_cycle and by _check_child_cycles: an explicit
+   stack of iterators in Python (no interpreter recursion), [path] = names on the current branch, [done] =
+   names whose successors are completely explored.  An entry on the current path is a cycle (SchemaError at
+   the line of the edge), an entry already done or undeclared is skipped, otherwise its successors are
+   explored and it is added to done.  The model recurses with fuel, which bounds the length of the path. *)
+Fixpoint dfs (fuel : nat) (succ : str -> sres) (es : list (str * N)) (path done : list str) : cres :=
+  match fuel with
+  | O => CExn FuelOut
+  | S f =>
+    (fix loop (es : list (str * N)) (done : list str) : cres :=
+       match es with
+       | [] => COk done
+       | (n, line) :: r =>
+         if smem n path then CErr line
+         else if smem n done then loop r done
+         else
+           match succ n with
+           | SSkip => loop r done
+           | SKeyError => CExn KeyError
+           | SEdges es' =>
+             match dfs f succ es' (path ++ [n]) done with
+             | COk done' => loop r (n :: done')
+             | x => x
+             end
+           end
+       end) es done
+  end.
+
+Definition vres_of (r : cres) : vres :=
+  match r with COk _ => VOk | CErr l => VErr l | CExn e => VExn e end.
+
+Definition succ_child (els : list element) (n : str) : sres :=
+  match find_element els n with
+  | None => SKeyError
+  | Some e => match edges_of els (e_name e) (e_members e) with None => SKeyError | Some es => SEdges es end
+  end.
+
+(* _check_child_cycles: every element in declaration order is a root *)
+Definition child_cycles (sch : schema) : vres :=
+  let els := s_elements sch in
+  vres_of (dfs (S (List.length els)) (succ_child els) (map (fun e => (e_name e, e_line e)) els) [] []).
+
+Definition use_edges (ms : list member) : list (str * N) :=
+  flat_map (fun m => match m with MUse g l => [(g, l)] | _ => [] end) ms.
+
+Definition succ_use (groups : list group) (n : str) : sres :=
+  match find_group groups n with None => SSkip | Some g => SEdges (use_edges (g_members g)) end.
+
+(* the first loop of _validate after the repair: _check_group_cycle(schema, g.name, [], g.line, done) for
+   every group in declaration order, sharing [done] *)
+Definition use_cycles (groups : list group) : vres :=
+  vres_of (dfs (S (List.length groups)) (succ_use groups) (map (fun g => (g_name g, g_line g)) groups) [] []).
+
+(* Schema._group_attrs after the repair (explicit stack of iterators, pre-order); the model recurses with
+   fuel; KeyError for an undeclared group as before *)
+Fixpoint group_attrs (groups : list group) (fuel : nat) (name : str) : gres :=
+  match fuel with
+  | O => GExn FuelOut
+  | S f =>
+    match find_group groups name with
+    | None => GExn KeyError
+    | Some g =>
+      (fix loop (ms : list member) : gres :=
+         match ms with
+         | [] => GOk []
+         | MAttr a :: r => match loop r with GOk l => GOk (a :: l) | e => e end
+         | MUse g' _ :: r =>
+           match group_attrs groups f g' with
+           | GOk l1 => match loop r with GOk l2 => GOk (l1 ++ l2) | e => e end
+           | e => e
+           end
+         | _ :: r => loop r
+         end) (g_members g)
+    end
+  end.
+
+Definition expanded_attrs (groups : list group) (members : list member) : gres :=
+  let fuel := S (List.length groups) in
+  (fix loop (ms : list member) : gres :=
+     match ms with
+     | [] => GOk []
+     | MAttr a :: r => match loop r with GOk l => GOk (a :: l) | e => e end
+     | MUse g' _ :: r =>
+       match group_attrs groups fuel g' with
+       | GOk l1 => match loop r with GOk l2 => GOk (l1 ++ l2) | e => e end
+       | e => e
+       end
+     | _ :: r => loop r
+     end) members.
+
+(* _validate of the explicitly RECURSIVE variant of the use traversals (the code before commit ff3dbc583);
+   rl = Python frames available to the callees of _validate *)
+Definition validate_rec (rl : nat) (sch : schema) : vres :=
   let groups := s_groups sch in
   let containers := map g_members groups ++ map e_members (s_elements sch) in
-  vfor (fun g => check_cycle groups rl (g_name g) [] (g_line g)) groups >>>
+  vfor (fun g => check_cycle_rec groups rl (g_name g) [] (g_line g)) groups >>>
   vfor group_check groups >>>
   vfor (uses_declared groups) containers >>>
   let namespaces := flat_map id_targets containers in
-  vfor (element_check sch rl) (s_elements sch) >>>
+  vfor (element_check_rec sch rl) (s_elements sch) >>>
+  child_cycles sch >>>
+  vfor (fun ms => vfor (validate_attr sch namespaces) (member_attrs ms)) containers.
+
+(* parse_string_rec *)
+Definition parse_string_rec (rl : nat) (text : str) : result schema :=
+  match parse_text text with
+  | Ok s =>
+    match validate_rec rl s with
+    | VOk => Ok s
+    | VErr l => SchemaErr l
+    | VExn e => PyExn e
+    end
+  | e => e
+  end.
+
+(* ---- the code of HEAD (iterative traversals): no recursion limit is involved *)
+
+Definition element_check (sch : schema) (e : element) : vres :=
+  vfor (fun k => match fget (e_facets e) k with
+                 | Some v => vcheck (is_fstr v) (e_line e)
+                 | None => VOk end) [f_xml; f_alias] >>>
+  match fget (e_facets e) f_alias with
+  | Some (FStr al) => vcheck (match find_element (s_elements sch) al with Some _ => true | None => false end) (e_line e)
+  | Some _ => VExn KeyError   (* unreachable: rejected by the loop above *)
+  | None => VOk
+  end >>>
+  children_check (s_elements sch) [] (e_members e) >>>
+  match expanded_attrs (s_groups sch) (e_members e) with
+  | GExn x => VExn x
+  | GOk attrs =>
+    match dup_check (e_line e) [] attrs with
+    | SchemaErr l => VErr l
+    | PyExn x => VExn x
+    | Ok names => constraints_check names (e_members e)
+    end
+  end.
+
+(* _validate *)
+Definition validate (sch : schema) : vres :=
+  let groups := s_groups sch in
+  let containers := map g_members groups ++ map e_members (s_elements sch) in
+  use_cycles groups >>>
+  vfor group_check groups >>>
+  vfor (uses_declared groups) containers >>>
+  let namespaces := flat_map id_targets containers in
+  vfor (element_check sch) (s_elements sch) >>>
+  child_cycles sch >>>
   vfor (fun ms => vfor (validate_attr sch namespaces) (member_attrs ms)) containers.
 
 (* parse_string *)
-Definition parse_string (rl : nat) (text : str) : result schema :=
+Definition parse_string (text : str) : result schema :=
   match parse_text text with
   | Ok s =>
-    match validate rl s with
+    match validate s with
     | VOk => Ok s
     | VErr l => SchemaErr l
     | VExn e => PyExn e
@@ -1115,7 +1280,7 @@ Definition d_enum (e : enum) : list Z :=
 Definition dump (s : schema) : list Z :=
   d_list d_enum (s_enums s) ++ d_list d_group (s_groups s) ++ d_list d_element (s_elements s).
 
-(* outcome of parse_string in the shape printed by harness/drivers/c41_parse.py:
+(* outcome of parse_string_rec in the shape printed by harness/drivers/c41_parse.py:
    0 :: dump | [1; line] | [2; exception code] *)
 Definition d_exn (e : pyexn) : Z :=
   match e with IndexError => 1 | KeyError => 2 | RecursionError => 3 | FuelOut => 4 end.
@@ -1169,9 +1334,12 @@ Inductive txt := TB (b : btxt) | TE (b : btxt) | TN (l : list N).
 Definition text_of (t : txt) : str :=
   match t with TB b => text_of_bt b | TE b => unesc (text_of_bt b) None | TN l => l end.
 
-(* the check evaluated by the correspondence run on (text, rl, outcome printed by the driver) *)
-Definition agrees (c : txt * N * list Z) : bool :=
-  match c with (t, rl, expected) => zl_eqb (outcome_h (parse_string (N.to_nat rl) (text_of t))) expected end.
+(* the check evaluated by the correspondence run on (text, outcome printed by the driver) *)
+Definition agrees (c : txt * list Z) : bool :=
+  match c with (t, expected) => zl_eqb (outcome_h (parse_string (text_of t))) expected end.
+(* same for the recursive variant, with the frame budget *)
+Definition agrees_rec (c : txt * N * list Z) : bool :=
+  match c with (t, rl, expected) => zl_eqb (outcome_h (parse_string_rec (N.to_nat rl) (text_of t))) expected end.
 
 (* table checks: is_digit / digit value / is_pyspace against CPython on listed code points *)
 Definition agrees_digit (c : N * Z) : bool :=
